@@ -90,6 +90,12 @@ def prog_case(rng):
         case["prog"] = pro[: rng.randint(2, 5)] + G.soup_program(rng, rng.randint(4, 24), aligned=False, mem_w=0.45)
         case["regs"] = dict(G.soup_regs(rng), **{"31": rng.choice([0, 0xFFFFFFC0, 0xFFFFFFE1, 0x3FF0, 0x20])})
         return case
+    if "dcache" not in case and "data" not in case and rng.random() < 0.08:
+        # a caller-supplied data memory that does NOT wrap addresses itself: the address an instruction computes is
+        # (rs1 + imm) mod 2^32 whatever the memory would do with other numbers; stores through negative sums first
+        case["nowrapmem"] = True
+        case["prog"] = [{"m": rng.choice(["sw", "sh", "sb"]), "rs1": 0, "rs2": 5, "imm": -rng.choice([4, 8, 16])}, {"m": "sw", "rs1": 31, "rs2": 10, "imm": 8}][: rng.randint(1, 2)] + case["prog"]
+        return case
     if "icache" not in case and rng.random() < 0.15:
         case["ibase"] = rng.choice([0x40, 0x100, 0x404, 0x1000, 0x2F00])
     return case
@@ -193,6 +199,13 @@ def run_case(prop, case, res):
 
         sim = RiscvSimulation(state=RiscvArchitecturalState(memory=Memory(AddressingType.BYTE, 32, True)))
         res.count("prog_cases_on_full_range_data_memory")
+    elif case.get("nowrapmem"):
+        from architecture_simulator.simulation.riscv_simulation import RiscvSimulation
+        from architecture_simulator.uarch.riscv.riscv_architectural_state import RiscvArchitecturalState
+        from architecture_simulator.uarch.memory.memory import Memory, AddressingType
+
+        sim = RiscvSimulation(state=RiscvArchitecturalState(memory=Memory(AddressingType.BYTE, 32, False, range(2**14, 2**32))))
+        res.count("prog_cases_on_non_wrapping_data_memory")
     elif ibase:
         # instruction memory with another address range: program and start of execution move with it
         sim = make_riscv_at("single", ibase, dcache=case.get("dcache"))
@@ -248,6 +261,13 @@ def run_case(prop, case, res):
         before = list(ref.x)
         ops = tuple(ref.x[s] for s in srcs(d))
         fp = footprint(d, ops)
+        if case.get("nowrapmem") and d["m"] in G.WIDTH:
+            # what a memory that does not wrap does with a LOAD address outside [0, 2^32), or with an access that runs
+            # past the top, is its own business (not claimed either way): the case ends there
+            raw_ = ref.x[d["rs1"]] + d["imm"]
+            if (d["m"] in G.LD and not 0 <= raw_ < (1 << 32)) or (raw_ & M32) + G.WIDTH[d["m"]] > (1 << 32):
+                res.count("non_wrapping_memory_case_ended_at_unspecified_access")
+                break
         out_before = sim.state.output
         regs_before = real_regs(sim)
         fault = None
